@@ -142,3 +142,72 @@ Theorem C03_wf_heap_sound :
     exists t, Repr (rdh h) None t /\ NoDup (ids t) /\ root_id t = root /\ size t = n /\ hsub h t.
 Proof. exact wf_heap_sound. Qed.
 Print Assumptions C03_wf_heap_sound.
+
+(* ------------------------------------------------------------------------------------------------
+   Tear-down STARTED AT AN ARBITRARY NODE x  (`*next = x` on entry; rbt.h/avl.h: "next: input starting
+   node or, if null, root node").  The calls tear x's subtree in post-order, then go on with x's parent
+   (descending into whatever children it still has - possibly a LEFT sibling of x), and so on up to the
+   root.  Definitions used below (coq/C03/IterProofs.v, coq/C03/TearFromProofs.v):
+     plug c s      the tree with subtree s in the zipper context c (frames FL y r / FR l y, innermost first)
+     cpost c       for every frame of c, innermost first: post-order of the frame's other subtree, then its node
+     tear_order c s = postorder s ++ cpost c
+   Non-vacuity Examples (a 7-node tree, started at a right child whose parent still has its left
+   subtree; complete and interrupted runs by vm_compute): end of coq/C03/TearFromProofs.v. *)
+From LibaV Require Import C03.IterProofs C03.TearFromProofs.
+
+(* complete tear-down from EVERY node x of EVERY tree (each handed-out node is freed at once = removed
+   from the heap; a read of a removed id is Stuck): with the fuel of the root-start theorem it is never
+   Stuck, hands out every node exactly once, every node after all nodes of its two subtrees, and leaves
+   root, saved next and heap empty; the handed-out list is postorder(subtree of x) ++ cpost(path to root) *)
+Theorem C03_tear_from_any_node_complete :
+  forall (h : heap) (t : tree) (fuel k : nat) (x : id),
+    Repr (rdh h) None t -> NoDup (ids t) -> hsub h t -> size t < fuel -> size t <= k -> In x (ids t) ->
+    exists l st',
+      fortear fuel k (mkT h (root_id t) (Some x)) = Ok (l, st')
+      /\ NoDup l /\ Permutation l (ids t)
+      /\ ChildrenFirst l t
+      /\ troot st' = None /\ tnext st' = None /\ (forall z, rdh (th st') z = None)
+      /\ (exists c s, t = plug c s /\ root_id s = Some x /\ l = postorder s ++ cpost c).
+Proof. exact tear_from_complete. Qed.
+Print Assumptions C03_tear_from_any_node_complete.
+
+(* the same tear-down interrupted after ANY number k of nodes: the first k of the (k-independent) list L
+   were handed out, the heap is again the parent-linked layout of a tree t' (so every theorem above
+   applies to it) holding exactly the nodes not handed out, and resuming from the saved state hands out
+   the rest and empties tree, saved next and heap *)
+Theorem C03_tear_from_any_node_interrupted :
+  forall (h : heap) (t : tree) (fuel : nat) (x : id),
+    Repr (rdh h) None t -> NoDup (ids t) -> hsub h t -> size t < fuel -> In x (ids t) ->
+    exists L,
+      NoDup L /\ Permutation L (ids t) /\ ChildrenFirst L t
+      /\ forall k, exists st' t',
+           fortear fuel k (mkT h (root_id t) (Some x)) = Ok (firstn k L, st')
+           /\ Repr (rdh (th st')) None t' /\ NoDup (ids t') /\ troot st' = root_id t' /\ hsub (th st') t'
+           /\ Permutation (ids t') (skipn k L)
+           /\ size t' < fuel
+           /\ (forall k2, size t' <= k2 ->
+                 exists st'', fortear fuel k2 st' = Ok (skipn k L, st'')
+                              /\ troot st'' = None /\ tnext st'' = None /\ (forall z, rdh (th st'') z = None)).
+Proof. exact tear_from_interrupted. Qed.
+Print Assumptions C03_tear_from_any_node_interrupted.
+
+(* the exact sequence, for every position (c, s) of the start node x = root of s; c = [] (x the root
+   node) gives tear_order [] s = postorder s, the root-start order of C03_tear_complete *)
+Theorem C03_tear_from_position_exact_order :
+  forall (h : heap) (c : list frame) (s : tree) (x : id) (fuel : nat),
+    Repr (rdh h) None (plug c s) -> NoDup (ids (plug c s)) -> hsub h (plug c s) ->
+    root_id s = Some x -> size (plug c s) < fuel ->
+    NoDup (tear_order c s) /\ Permutation (tear_order c s) (ids (plug c s))
+    /\ ChildrenFirst (tear_order c s) (plug c s)
+    /\ forall k, exists st' t',
+         fortear fuel k (mkT h (root_id (plug c s)) (Some x)) = Ok (firstn k (tear_order c s), st')
+         /\ Repr (rdh (th st')) None t' /\ NoDup (ids t') /\ troot st' = root_id t' /\ hsub (th st') t'
+         /\ Permutation (ids t') (skipn k (tear_order c s))
+         /\ size t' < fuel
+         /\ (size (plug c s) <= k ->
+               troot st' = None /\ tnext st' = None /\ (forall z, rdh (th st') z = None))
+         /\ (forall k2, size t' <= k2 ->
+               exists st'', fortear fuel k2 st' = Ok (skipn k (tear_order c s), st'')
+                            /\ troot st'' = None /\ tnext st'' = None /\ (forall z, rdh (th st'') z = None)).
+Proof. exact tear_from_pos. Qed.
+Print Assumptions C03_tear_from_position_exact_order.
